@@ -136,6 +136,8 @@ def rule_I10(ctx):
     ctx.ob("I10", bad_raw[0] if bad_raw else loop, "AKAI file table: a read failure on the table stream ends or skips the entry, it never escapes the scan", not bad_raw,
            "" if not bad_raw else f"`{norm(bad_raw[0])}` reads the table stream directly, outside any handler for a failed sector read: on a truncated image the error "
            "aborts the whole directory", inst="akai-table:raw-read")
+    _i10_volume_stream(ctx)
+
 
 
 # exceptions that construct itself derives from ConstructError (construct 2.10 class hierarchy)
@@ -152,6 +154,21 @@ I11_UNREACHABLE = {
     ("SampleEntryAdapter._decode_element", "FatNotPresent"):
         "the image parser parses the FAT area before the directory areas and hands it down in the context of every sample record",
 }
+
+
+def _i10_volume_stream(ctx):
+    """the volume's file table is parsed straight from the sector stream of its segment: how much of a cut-off directory sector is
+    readable is then decided entry by entry (a copy fetched in one piece is all or nothing)"""
+    from .util import path_call_keys as _pk10, call_parts as _cp10
+    va = ctx.fn(AK + "volume.py", "VolumesAdapter._decode_element", "I10")
+    seen = set()
+    for ks_ in _pk10(ctx, va, "I10", ends=("return", "fall", "raise"), limit=4000, include_exc=False):
+        for k_ in ks_:
+            if k_.startswith("VolumeBodyConstruct.parse_stream("):
+                _n, pos_, kw_ = _cp10(k_.replace("~", ""))
+                seen.add(pos_[0] if pos_ else "?")
+    ok = bool(seen) and seen <= {"(self.sat(context)).get_segment(volume_entry.start)", "(self.sat).get_segment(volume_entry.start)"}
+    ctx.ob("I10", va, "the volume's file table is parsed from its segment's sector stream itself", ok, "" if ok else f"parsed from {sorted(seen)}", inst="volume-body-stream")
 
 
 def rule_I11(ctx):
